@@ -13,22 +13,38 @@ from harness.util import guarded, first_failures
 ID = 'C20'
 LEVEL = 'proof'
 LEVEL_TEXT = ('Table theorems proved by decide over data a translator regenerates from the current source on every run '
-              '(menus of _gui.py, key structure of gui-config.json, colormap, allowed_codes, stabilizer types of every '
+              '(menus of _gui.py, COMPLETE content of gui-config.json, colormap, allowed_codes, stabilizer types of every '
               'class): every code x picture x stabilizer type and every qubit description exists and is complete; the '
               'decoders offered are exactly those declaring support. Generic theorems (any tables): completeness implies '
               'every backend lookup succeeds with all colours resolved; offered <-> allowed; one description per coordinate '
-              'in index order. The table model is tied to the Flask backend by differential runs through the test client '
-              '(menus, per-type descriptions), and the statement-level oracle compares /code-data, /decode and /new-errors '
-              'with direct library calls for every menu combination of the bounded size set.')
-LEVEL_NOTE = ('trusted: Lean kernel + standard axioms; translator harness/regen_gui.py; Flask/JSON layer and the per-class '
-              'geometry tweaks of the descriptions are tested (compared with direct library calls), not modelled; menu '
-              'sizes beyond the bounded set (up to 12) are only covered in the thorough tier up to 6 (3-D) / 8 (2-D); '
-              'the JavaScript front-end is out of scope')
-TECHNIQUE = ('Lean 4 proof by decide over tables regenerated from the source by a translator + generic lookup theorems; '
-             'differential correspondence through the Flask test client')
-TRUSTED = ['translator harness/regen_gui.py (AST-free: imports the module and reads the JSON)',
-           'HTTP/JSON layer tested only']
+              'in index order. List part of /code-data (Properties/C20Repr.lean): a Lean model of stabilizer_representation / '
+              'qubit_representation (base class and the per-class overrides of all 16 menu classes, floats kept symbolic) and '
+              'of send_code_data on the hand-written all-sizes lattice models; proved for EVERY size of each class, every '
+              'offered deformation and both pictures: the request succeeds with exactly n qubit and m stabilizer descriptions, '
+              'the i-th one computed from and located at the i-th library coordinate, each with object, colour, opacity, '
+              'params, location (no look-up miss), and H / logical_x / logical_z are the matrices of the C01 valid_code '
+              'theorems (relabelled qubit by qubit under a deformation, C08; validity transfers). The model is tied to the '
+              'Flask backend by differential runs through the test client: menus, per-type descriptions, and EVERY field of '
+              'every description plus H / logicals / order of /code-data for every menu class x sizes x deformation x picture; '
+              'the statement-level oracle compares /code-data, /decode and /new-errors with direct library calls.')
+LEVEL_NOTE = ('trusted: Lean kernel + standard axioms; translator harness/regen_gui.py; the Flask/JSON layer is tested '
+              '(compared field by field with the model), not modelled; floats the source computes with numpy (np.pi/4, '
+              'np.sqrt(2)/2, z*1.4142, y+-0.9) are symbolic constants of the model, matched by exact float equality with the '
+              'same Python operation in the harness; nothing specifies what a drawing should look like (the theorems are about '
+              'completeness, order, location and the matrices, not about geometric correctness of normals and angles); error '
+              'kinds are compared as "HTTP error" only; menu sizes beyond the bounded set (up to 12) are covered by the all-sizes '
+              'theorems on the model side and by the streams up to 6 (3-D) / 8 (2-D) in the thorough tier; /decode and '
+              '/new-errors are compared with library calls only; the JavaScript front-end is out of scope')
+TECHNIQUE = ('Lean 4 proof by decide over tables regenerated from the source by a translator + generic lookup theorems + '
+             'all-sizes theorems about a hand-written model of the representation methods and send_code_data; '
+             'differential correspondence through the Flask test client (every field of /code-data)')
+TRUSTED = ['translator harness/regen_gui.py (AST-free: imports the module and reads the JSON; float literals as exact decimals)',
+           'HTTP/JSON layer tested only',
+           'float tags: a float of the answer is recognised by exact equality with the Python operation the source performs']
 ASSUMPTIONS = ['supported lattice families of DESIGN.md section 4; menu = _gui.codes/_gui.decoders + main.js (sizes 1..12, coprime L+1)']
+
+
+PROPERTY_MODULES = ['PanqecVerif.Properties.C20', 'PanqecVerif.Properties.C20Repr']
 
 
 def regen(ctx):
@@ -80,6 +96,36 @@ def menu_requests(ctx, deep=False):
             for dn in ['None'] + list(klass.deformation_names):
                 for rot in (False, True):
                     reqs.append((name, cls, s, dn, rot))
+    return reqs
+
+
+def offmenu_requests(ctx):
+    """sizes the menu cannot send (pairwise different sides) but the route accepts: they separate Lx / Ly / Lz in
+    the per-class arithmetic of the descriptions (e.g. `y == 2*Ly-1` against `z == 2*Lz-1`)"""
+    import itertools
+    import panqec.gui._gui as G
+    rng = ctx.np_rng(203)
+    reqs = []
+    for name, klass in G.codes.items():
+        cls = klass.__name__
+        if klass.dimension == 2:
+            cand = [s for s in itertools.permutations(range(1, 7), 2) if K.supported(cls, s)]
+        else:
+            cand = [s for s in itertools.permutations(range(1, 6), 3) if K.supported(cls, s)]
+            cand += [s for s in itertools.permutations((2, 4, 6), 3) if K.supported(cls, s)]
+        lim = 260 if ctx.thorough else 130
+        ok = []
+        for s in cand:
+            try:
+                if K.qubit_count(cls, s) <= lim:
+                    ok.append(s)
+            except Exception:  # noqa
+                pass
+        k = 6 if ctx.thorough else 2
+        pick = [ok[i] for i in sorted(rng.choice(len(ok), min(k, len(ok)), replace=False))] if ok else []
+        for s in pick:
+            for rot in (False, True):
+                reqs.append((name, cls, s, 'None', rot))
     return reqs
 
 
@@ -143,7 +189,137 @@ def correspondence(ctx):
             ans = ','.join(f"{k}={col.get(k)}" for k in 'IXYZ')
             s_repr.add(f'gui.repr {cls} qubits {pic} -', ans,
                        {'code_name': name, 'size': size, 'rotated': rot, 'what': 'qubit description'}, tag=cls)
-    return [s_menu.run(), s_repr.run()]
+    return [s_menu.run(), s_repr.run()] + code_data_streams(ctx, c)
+
+
+# ------------------------------------------------------------------ /code-data payload vs Model/GuiRepr.lean
+
+def _float_tag(v, in_location):
+    """canonical text of a float of the payload.  Floats the source computes with numpy / inexact float arithmetic are
+    recognised by EXACT equality with the same Python operation and printed as the tagged constant the model carries
+    (never approximated); every other float is a literal of gui-config.json / the source, printed as Python prints it."""
+    import numpy as np
+    if in_location:
+        k = round(v / 1.4142)
+        if k * 1.4142 == v:
+            return f'{k}*1.4142'
+        k = round(v - 0.9)
+        if k + 0.9 == v:
+            return f'{k}+0.9'
+        k = round(v + 0.9)
+        if k - 0.9 == v:
+            return f'{k}-0.9'
+    else:
+        if v == np.pi / 4:
+            return 'pi/4'
+        if v == np.sqrt(2) / 2:
+            return 'sqrt(2)/2'
+        if v == -np.sqrt(2) / 2:
+            return '-sqrt(2)/2'
+    t = repr(float(v))
+    if 'e' in t or 'n' in t:
+        return 'FLOAT:' + t
+    return t
+
+
+def float_tag_collisions(kmax=200):
+    """the three location forms never denote the same float for |k| <= kmax (so the tag printed for a float of a
+    location is the one the model carries, whichever form the source used), and every form is recognised"""
+    bad = []
+    forms = {}
+    for k in range(-kmax, kmax + 1):
+        for tag, v in ((f'{k}*1.4142', k * 1.4142), (f'{k}+0.9', k + 0.9), (f'{k}-0.9', k - 0.9)):
+            if _float_tag(v, True) != tag:
+                bad.append((tag, _float_tag(v, True)))
+            if v in forms and forms[v] != tag:
+                bad.append((tag, forms[v]))
+            forms[v] = tag
+    return bad
+
+
+def _jstr(s_):
+    return '"' + s_.replace('\\', '\\\\').replace('"', '\\"') + '"'
+
+
+def canon_json(o, in_location=False):
+    """canonical text of a JSON value: no blanks, keys sorted, floats through _float_tag"""
+    if o is None:
+        return 'null'
+    if isinstance(o, bool):
+        return 'true' if o else 'false'
+    if isinstance(o, int):
+        return str(o)
+    if isinstance(o, float):
+        return _float_tag(o, in_location)
+    if isinstance(o, str):
+        return _jstr(o)
+    if isinstance(o, list):
+        return '[' + ','.join(canon_json(x, in_location) for x in o) + ']'
+    if isinstance(o, dict):
+        return '{' + ','.join(_jstr(k) + ':' + canon_json(o[k], in_location or k == 'location') for k in sorted(o)) + '}'
+    return 'UNSUPPORTED:' + type(o).__name__
+
+
+def stack_str(m):
+    """Driver.showStack"""
+    if not m:
+        return '_'
+    return '|'.join((''.join(str(int(x)) for x in row) if row else '-') for row in m)
+
+
+def narrow(a, b):
+    la, lb = a.split('\t'), b.split('\t')
+    for i, (x, y) in enumerate(zip(la, lb)):
+        if x != y:
+            return f'[element {i} of {len(la)}] {x}', f'[element {i} of {len(lb)}] {y}'
+    return f'[{len(la)} elements] ' + a[:300], f'[{len(lb)} elements] ' + b[:300]
+
+
+def code_data_streams(ctx, c):
+    """EVERY field of every qubit / stabilizer description of /code-data, in the order sent, and H / logical_x /
+    logical_z, against the model's describeAll (Model/GuiRepr.lean + the hand-written lattice models), for every menu
+    class x sizes x deformation x both pictures"""
+    def err_post(op, out):
+        return 'ERR' if out.startswith('ERR') else out
+    coll = float_tag_collisions()
+    if coll:   # would make the textual comparison ambiguous: report, never silently pass
+        ctx.notes.append(f'float tag collisions: {coll[:5]}')
+    s_desc = Stream('code-data-descriptions-vs-model', post=err_post)
+    s_mat = Stream('code-data-H-logicals-order-vs-model', post=err_post)
+    menu = menu_requests(ctx)
+    for name, cls, size, dn, rot in menu + offmenu_requests(ctx):
+        data, status = post(c, '/code-data', payload(name, size, dn, rot))
+        pre = f"guidata {cls} {'x'.join(map(str, size))} {esc(dn)} {int(rot)}"
+        inp = {'code_name': name, 'class': cls, 'size': list(size), 'deformation': dn, 'rotated': rot}
+        tag = f"{cls}{'/rotated' if rot else '/kitaev'}" + ('' if (name, cls, size, dn, rot) in menu else '/off-menu-size')
+        if data is None:
+            s_desc.add(pre + ' qubits', 'ERR', dict(inp, what=f'HTTP {status}'), tag=tag)
+            continue
+        ans = guarded(lambda: f"{len(data['qubits'])} {len(data['stabilizers'])}")
+        s_mat.add(pre + ' counts', ans, dict(inp, what='number of descriptions'), tag=tag)
+        for part, key in (('H', 'H'), ('logx', 'logical_x'), ('logz', 'logical_z')):
+            ans = guarded(lambda: stack_str(data[key]))
+            s_mat.add(f'{pre} {part}', ans, dict(inp, what=key), tag=tag)
+        for part, key in (('qubits', 'qubits'), ('stabs', 'stabilizers')):
+            ans = guarded(lambda: '\t'.join(canon_json(d) for d in data[key]) or '_')
+            s_desc.add(f'{pre} {part}', ans, dict(inp, what=key + ' descriptions (every field, index order)'), tag=tag)
+    for s_ in (s_desc, s_mat):
+        s_.run()
+        narrow_mismatches(s_)
+    return [s_desc, s_mat]
+
+
+def narrow_mismatches(stream):
+    if not stream.mismatches:
+        return
+    from harness.core import driver
+    by_op = {op: a for op, a in zip(stream.ops, stream.impl)}
+    for m in stream.mismatches:
+        a = by_op.get(m['op'])
+        if a is None or '\t' not in a:
+            continue
+        b = driver([m['op']])[0]
+        m['implementation'], m['model'] = (t[:2000] for t in narrow(a, b))
 
 
 # ------------------------------------------------------------------ oracle
